@@ -9,7 +9,7 @@ PROP = 'C13'
 MODULE = 'WaveletsVerif.Properties.C13'
 THEOREMS = ['WV.C13.afb1dAtrousOne_periodic_eq_swt', 'WV.C13.swt_shift', 'WV.C13.afb2dAtrous_eq_level', 'WV.C13.SWTForward_eq_swt2',
             'WV.C13S.rowsMap_rot2', 'WV.C13S.colsMap_rot2', 'WV.C13S.swt2Level_rot2', 'WV.C13S.swt2_rot2', 'WV.C13S.SWTForward_shift', 'WV.C13M.afb2dAtrous_multi', 'WV.C13M.SWTForward_multi',
-            'WV.C19Z.afb1dAtrousOne_gen', 'WV.C10Z.module_glue_gen', 'WV.C10Z.swt_dilation_gen', 'WV.C10Z.forward_keeps_no_state_gen']
+            'WV.C19Z.afb1dAtrousOne_gen', 'WV.C10Z.module_glue_gen', 'WV.C10Z.swt_dilation_gen', 'WV.C10Z.forward_keeps_no_state_gen', 'WV.C07W.swt_local']
 OPS = ['afb1d_atrous', 'afb2d_atrous', 'SWTForward']
 
 
